@@ -22,6 +22,14 @@ getPhase(normalise=True) rounds them, and as exact pending times) never increase
 shrinks, sampled whenever no node is due at the current time (i.e. after every batch of same-time firings).
 A run cut off by the event budget is judged by nothing; obs['stats'] counts them (budget_cut).
 
+Several populations (case['pops'], run_multi / direct_multi): two or three differently named PulseCoupledOscillator
+instances (at most one unnamed) in ONE ProcessSequence over the same network, each with its own decorated parameters.  The
+populations keep their own state on the nodes and do not interact, so the property holds of each: D judges every clause
+PER POPULATION (pending entries of the queue attributed to the process object that posted them, the event id under that
+population's own node attribute, log and final phases from its own decorated results, its own FIRED taps), the at-every-
+instant clauses also after the OTHER populations' events.  The Coq model runs one population on a queue of its own, so
+these cases are not compared with it (counted: not_compared_with_model).
+
 Earlier runs on the SAME process and dynamics objects (case['before'], case['prerun']) come before the observed run:
 whole runs on ANOTHER network (dyn.setNetworkGenerator between the runs: other order, other node set, other edges), and
 runs that are abandoned inside set-up after the oscillators posted their firings (epyc calls tearDown() only when
@@ -358,7 +366,9 @@ def run_multi(case, budget=220):
                              'log_t': list(proc._firingTimes), 'log_n': list(proc._firingNodes), 'ncalls': len(rec['calls'])})
 
     def everybody(who):
-        totals.append([len(dyn._postedEventFinder), sum(1 for ev in dyn._postedEvents if ev[3] is not None)])
+        # the pending FIRINGS, whoever posted them
+        totals.append([sum(1 for ev in dyn._postedEventFinder.values() if ev[5] == PulseCoupledOscillator.FIRED),
+                       sum(1 for ev in dyn._postedEvents if ev[3] is not None and ev[5] == PulseCoupledOscillator.FIRED)])
         for j in range(len(procs)):
             snapshot(j, 'setup' if who is None else 'event' if j == who else 'other')
 
@@ -415,7 +425,8 @@ def run_multi(case, budget=220):
 
 def direct_multi(case, obs):
     """D for several populations over one network: the property, population by population (they do not interact), plus:
-    every tap is the firing of one of the populations and the queue holds nothing but their pending firings"""
+    every tap is the firing of one of the populations and the pending firings on the queue are theirs (one per node and
+    population in all)"""
     out = []
     if obs.get('skipped'):
         return out
@@ -424,15 +435,6 @@ def direct_multi(case, obs):
     k = len(case['pops'])
     nn = len(case['graph']['nodes'])
     names = [pop.get('inst') for pop in case['pops']]
-    for tp in obs['taps_all']:
-        if tp[3] < 0 or tp[1] != obs['fired_name']:
-            out.append({'signature': 'foreign-event:several-populations', 'detail': {'tap': tp}})
-            break
-    for i, tot in enumerate(obs['totals']):
-        if tot != [k * nn, k * nn]:
-            out.append({'signature': 'live-entries-total:several-populations',
-                        'detail': {'snap': i - 1, 'finder': tot[0], 'heap_live': tot[1], 'populations': names, 'nodes': nn}})
-            break
     for j in range(k):
         seen = set()
         for v in direct(sub_case(case, j), obs['pops'][j]):
@@ -442,8 +444,15 @@ def direct_multi(case, obs):
             out.append({'signature': v['signature'] + ':several-populations',
                         'detail': dict(v.get('detail') or {}, population=j, instance=names[j], populations=names,
                                        event_attribute=obs['pops'][j].get('event_attribute'))})
-    if obs['events'] is not None and obs['events'] != len(obs['taps_all']):
-        out.append({'signature': 'event-count-differs-from-taps:several-populations', 'detail': {'events': obs['events'], 'taps': len(obs['taps_all'])}})
+    for tp in obs['taps_all']:
+        if tp[3] < 0 or tp[1] != obs['fired_name']:
+            out.append({'signature': 'foreign-event:several-populations', 'detail': {'tap': tp}})
+            break
+    for i, tot in enumerate(obs['totals']):
+        if tot != [k * nn, k * nn]:
+            out.append({'signature': 'live-entries-total:several-populations',
+                        'detail': {'snap': i - 1, 'finder': tot[0], 'heap_live': tot[1], 'populations': names, 'nodes': nn}})
+            break
     return out
 
 
@@ -776,6 +785,61 @@ def gen_before(rnd, case):
     return out
 
 
+POP_NAMES = ['fast', 'slow', 'a', 'b', 'x.1', 'fireflies']
+PERIOD_RATIOS = [1.0, 1.0, 0.5, 2.0, 1.5, 0.75, 3.0, 1.25]
+
+
+def gen_states(rnd, n):
+    mode = rnd.randrange(4)
+    states = []
+    for i in range(n):
+        if mode == 0 and states and rnd.random() < 0.5:
+            states.append(rnd.choice(states))                 # synchronised from the start
+        elif mode == 1 and rnd.random() < 0.3:
+            states.append(rnd.choice([0.0, 0.5, 1 - 2.0 ** -20, 2.0 ** -20]))
+        else:
+            states.append(rnd.randrange(0, DYADIC) / float(DYADIC))
+    return states
+
+
+def gen_multi(rnd):
+    """two or three differently named populations (at most one of them unnamed) in one ProcessSequence (a list, or a dict
+    under keys of its own) over ONE network, each with its own period (within a factor 3 of the others, sometimes the same),
+    dissipation, coupling and initial states; with named populations only, the plain parameter names sometimes carry
+    other values for nobody"""
+    from epydemic import PulseCoupledOscillator as PCO
+    graph = gen_graph(rnd, None, *rnd.choice([(2, 6), (2, 6), (1, 3), (5, 8)]))
+    n = len(graph['nodes'])
+    dynamics = rnd.choice(['stochastic', 'synchronous'])
+    k = rnd.choice([2, 2, 2, 3])
+    names = rnd.sample(POP_NAMES, k)
+    if rnd.random() < 0.4:
+        names[rnd.randrange(k)] = None
+    base = rnd.choice(SYNC_PERIODS if dynamics == 'synchronous' else PERIODS + OFFGRID_PERIODS)
+    pops = []
+    for name in names:
+        wide = rnd.random() < 0.2
+        pops.append({'inst': name, 'period': base * rnd.choice(PERIOD_RATIOS) if pops else base,
+                     'b': rnd.choice(WIDE_BS) if wide and rnd.random() < 0.5 else rnd.choice(BS),
+                     'coupling': rnd.choice(WIDE_COUPLINGS) if wide and rnd.random() < 0.5 else rnd.choice(COUPLINGS),
+                     'states': gen_states(rnd, n)})
+    if rnd.random() < 0.2:
+        # the same oscillators twice: same period and initial states, so both populations fire a node at the same time
+        pops[1].update(period=pops[0]['period'], states=list(pops[0]['states']))
+    # about 50 firings in all
+    rate = sum(n / pop['period'] for pop in pops)
+    maxtime = min(rnd.choice([1.5, 2.5, 4.0]) * max(pop['period'] for pop in pops), 50.0 / rate)
+    maxtime = max(maxtime, 1.25 * min(pop['period'] for pop in pops))
+    if dynamics == 'synchronous':
+        maxtime = float(max(2, math.ceil(maxtime)))
+    case = {'graph': graph, 'dynamics': dynamics, 'maxtime': maxtime, 'pops': pops}
+    if rnd.random() < 0.3:
+        case['keys'] = rnd.sample(['p', 'q', 'r', 'oscillators'], k)
+    if None not in names and rnd.random() < 0.4:
+        case['decoy'] = {PCO.PERIOD: rnd.choice([0.25, 3.0, 1.0]), PCO.B: rnd.choice([0.5, 1.0, 4.0]), PCO.COUPLING: rnd.choice([0.0, 1.0, 0.3])}
+    return case
+
+
 class H(Harness):
     ID = 'C20'
     ANCHOR_FILES = ['epydemic/pulsecoupled.py', 'epydemic/networkdynamics.py']
@@ -798,7 +862,10 @@ class H(Harness):
             'on another network (setNetworkGenerator between the runs; 1-11 nodes, more, fewer or as many as the case\'s, other order and edges, sparse ones before a complete '
             'network) and runs abandoned inside set-up after the firings were posted (the wrapper around the process\' setUp raises after the original, or the scripted states '
             'run out part-way; run(fatal=True) and run(fatal=False); own or another network), a further 15 % after one whole run on the same network; '
-            'non-trivial = at least 3 firings and at least one cascade that moved a node; distinct by the whole case')
+            'a quarter as many cases again run two or three differently named populations (at most one unnamed) in one ProcessSequence (list or dict) over ONE '
+            'network of 1-8 nodes, each with its own decorated period (within a factor 3, sometimes equal with equal states), dissipation, coupling and scripted states, '
+            'plus 8 directed ones (named/named, unnamed first, unnamed last, three; K4 stochastic and C5 synchronous): D per population, not compared with the model; '
+            'non-trivial = at least 3 firings and at least one cascade that moved a node (several populations: at least two of them fired); distinct by the whole case')
     TRUSTED = ['Coq 8.16.1 kernel incl. vm_compute',
                'harness/c20.py and vlib (scripted rng.random, recording of the arguments of the numeric maps, reading of '
                'dyn._postedEventFinder / _postedEvents and of the node attribute for D)',
@@ -812,7 +879,9 @@ class H(Harness):
                    'within 1e-9 of the period of the exact argument; the theorems assume only caller time <= it <= a monotone bound of the argument']
 
     def gen_cases(self, tier, rnd, n):
-        return [gen_case(rnd, tier) for _ in range(n)]
+        # the one-population cases first (harness/c04.py draws from gen_case too: it is left as it is), then a quarter as
+        # many several-population cases (D only: the model runs one population)
+        return [gen_case(rnd, tier) for _ in range(n)] + [gen_multi(rnd) for _ in range(max(8, n // 4))]
 
     def exhaustive_cases(self, tier):
         out = []
@@ -823,19 +892,38 @@ class H(Harness):
                 for states in ([0.25, 0.25, 0.25], [0.125, 0.5, 0.875], [0.0, 0.5, 0.5]):
                     out.append({'graph': {'kind': 'all3', 'nodes': [0, 1, 2], 'edges': edges}, 'period': 1.0, 'b': 1.0,
                                 'coupling': 0.25, 'maxtime': 3.0, 'dynamics': dyn, 'states': states})
+        # two and three populations over one network: both named / one unnamed (first or last), both dynamics
+        k4 = {'kind': 'complete', 'nodes': [0, 1, 2, 3], 'edges': [list(e) for e in itertools.combinations(range(4), 2)]}
+        c5 = {'kind': 'cycle', 'nodes': [0, 1, 2, 3, 4], 'edges': [[i, (i + 1) % 5] for i in range(5)]}
+        for names in (['fast', 'slow'], [None, 'slow'], ['fast', None], ['a', 'b', 'c']):
+            for dyn, graph in (('stochastic', k4), ('synchronous', c5)):
+                nn = len(graph['nodes'])
+                pops = [{'inst': nm, 'period': [1.0, 3.0, 1.5][j], 'b': [1.5, 3.0, 1.0][j], 'coupling': [0.04, 0.1, 0.25][j],
+                         'states': [((3 * i + 5 * j + 1) % 16) / 16.0 for i in range(nn)]} for j, nm in enumerate(names)]
+                out.append({'graph': graph, 'dynamics': dyn, 'maxtime': 4.0, 'pops': pops})
         return out
 
     def execute(self, case):
-        return run_case(case)
+        return run_multi(case) if case.get('pops') else run_case(case)
 
     def direct(self, case, obs):
-        return direct(case, obs)
+        return direct_multi(case, obs) if case.get('pops') else direct(case, obs)
 
     def to_coq(self, case, obs):
+        if case.get('pops'):
+            # Model/Pulse.v runs ONE population on a queue of its own (event ids, event count): several populations over one
+            # network are judged by D alone, and counted
+            if isinstance(obs.get('stats'), dict):
+                obs['stats']['not_compared_with_model'] = 1
+            return None
         return to_coq(case, obs)
 
     def nontrivial(self, case, obs):
         if obs.get('skipped') or obs.get('exception'):
+            return None
+        if case.get('pops'):
+            if len(obs['taps_all']) >= 3 and sum(1 for po in obs['pops'] if po['taps']) >= 2:
+                return str(sorted(case.items(), key=str))
             return None
         moved = sum(1 for c in obs['calls'] if c[0] == 'T') - len(case['states']) - len(obs['taps'])
         if len(obs['taps']) >= 3 and moved >= 1:
@@ -843,4 +931,7 @@ class H(Harness):
         return None
 
     def sample_view(self, case, obs):
+        if case.get('pops'):
+            return {'case': case, 'taps': (obs.get('taps_all') or [])[:6],
+                    'firing_nodes': [po.get('firing_nodes') for po in obs.get('pops', [])], 'phases': [po.get('phases') for po in obs.get('pops', [])]}
         return {'case': case, 'taps': (obs.get('taps') or [])[:6], 'firing_nodes': obs.get('firing_nodes'), 'phases': obs.get('phases')}
